@@ -145,7 +145,7 @@ end
 
 /-! ### the premises are satisfiable: a concrete step at `ℚ` -/
 section NonVacuity
-local instance : HasTrunc ℚ := ⟨fun q => ((q.num.tdiv q.den : Int) : ℚ)⟩
+local instance instTruncQC17 : HasTrunc ℚ := ⟨fun q => ((q.num.tdiv q.den : Int) : ℚ)⟩
 
 private def cfgQ17 : EnvCfg ℚ :=
   { world := { spec := fun _ => { mult := 1, cashReq := 1, mr := 0 }, fixed := 0, prop := 0, markup := 0,
